@@ -233,9 +233,14 @@ func (f *FuncCtx) call(st *State, call *ast.CallExpr) []Term {
 	// loggers: evaluate arguments for their panic edges, no effect
 	if isLoggerPkg(fn.Pkg()) {
 		for _, a := range call.Args {
-			f.exprOpaque(st, a)
+			// arguments of logger calls (GetSnapshot(), GrlText, durations ...) are evaluated on a scratch copy: T-LOG
+			// covers them too (no effect on verified state; panics inside them are not modelled)
+			savedPend, savedImpure, savedWarn := f.pend, f.impure, len(f.w.warnings)
+			f.exprOpaque(st.clone(), a)
+			f.pend, f.impure = savedPend, savedImpure
+			f.w.warnings = f.w.warnings[:savedWarn]
 		}
-		f.assumed["T-LOG: logger calls have no effect on verified state and do not panic"] = true
+		f.assumed["T-LOG: logger calls and the evaluation of their arguments have no effect on verified state and do not panic"] = true
 		var rs []Term
 		for i := 0; i < sig.Results().Len(); i++ {
 			rs = append(rs, f.havocVal(st, "log", sig.Results().At(i).Type()))
@@ -299,6 +304,7 @@ func (f *FuncCtx) call(st *State, call *ast.CallExpr) []Term {
 		f.panicFork(st, f.site("call:"+fn.Name()))
 	} else {
 		f.assumed["opaque external function (fresh result, no effect on verified state, no panic): "+shortName(key)] = true
+		f.impure = append(f.impure, "calls opaque external "+shortName(key))
 	}
 	return rs
 }
@@ -331,6 +337,9 @@ func (f *FuncCtx) conEnv(c *Contract, st, old *State, names map[string]Term) *CE
 
 func (f *FuncCtx) applyContract(st *State, c *Contract, fn *types.Func, recv *Term, args []Term, site, pos string) []Term {
 	f.usedCons[fn.FullName()] = true
+	if !c.Pure && fn.FullName() != f.info.Obj.FullName() {
+		f.impure = append(f.impure, "calls "+shortName(fn.FullName())+" which is not declared isfunc")
+	}
 	sig := fn.Type().(*types.Signature)
 	names := map[string]Term{}
 	if c.RecvName != "" && recv != nil {
@@ -403,7 +412,34 @@ func (f *FuncCtx) applyContract(st *State, c *Contract, fn *types.Func, recv *Te
 	}
 	for _, en := range c.Ensures {
 		env := f.conEnv(c, st, old, names)
-		st.assume(env.boolT(en.Expr))
+		fact := env.boolT(en.Expr)
+		if len(en.Props) > 0 {
+			// a tagged postcondition is only brought into queries of obligations sharing a tag (keeps unrelated quantifiers out)
+			fact = "#tags:" + strings.Join(en.Props, ",") + "# " + fact
+		}
+		st.assume(fact)
+	}
+	if c.Pure {
+		// deterministic function of its arguments: name the results by function symbols
+		var as, sorts []string
+		if recv != nil {
+			as, sorts = append(as, recv.S), append(sorts, recv.Sort)
+		}
+		for _, a := range args {
+			as, sorts = append(as, a.S), append(sorts, a.Sort)
+		}
+		for i, r := range rs {
+			isErr := namedPath(sig.Results().At(i).Type()) == "" && types.Identical(sig.Results().At(i).Type(), types.Universe.Lookup("error").Type())
+			if isErr {
+				fnn := "fnok_" + short
+				f.declareFun(fnn, sorts, SBool)
+				st.assume("(= (= " + r.S + " 0) (" + fnn + " " + strings.Join(as, " ") + "))")
+			} else {
+				fnn := fmt.Sprintf("fn_%s_%d", short, i)
+				f.declareFun(fnn, sorts, r.Sort)
+				st.assume("(= " + r.S + " (" + fnn + " " + strings.Join(as, " ") + "))")
+			}
+		}
 	}
 	for _, ga := range c.GhostExit {
 		env := f.conEnv(c, st, old, names)
